@@ -1,13 +1,9 @@
 /-
-  The full Future/ThreadPool micro-step system (`Model.lean`) simulates the closed ring system
-  (`Ring.lean`): as long as the pool has not been deleted (`(s.sigs 0).live = true`: the enqueued-signal of
-  the pool, destroyed only by `dFin`, is alive), the projection `proj s` of a reachable state is a
-  reachable state of `RingSys` with capacity `capOf cfg`.  Consequences: the facts of `RingLemmas` hold
-  for the ring of the pool together with the `push`/`pop` frames of all threads.
-
-  Scope: the hypothesis `(s.sigs 0).live = true` excludes the states after `~ThreadPool` (`dFin`).
-  Removing it needs the join reasoning "all clients and all workers have finished when main runs dFin"
-  (not done here, see OPEN at the end).
+  Core of the simulation proof: the invariant `SimInv` of the full Future/ThreadPool micro-step system
+  (`Model.lean`) and the simulation of the closed ring system (`Ring.lean`) AS LONG AS THE POOL HAS NOT BEEN
+  DELETED (`poolAlive s`: signal 0, the enqueued-signal of the pool, destroyed only by `dFin`, is alive).
+  The theorems of namespace `Alive` carry that hypothesis; `SimRing.lean` removes it with the join
+  reasoning of `SimRing5.lean`.
 -/
 import Nstd.Future.SimRing2
 import Nstd.Future.SimRing3
@@ -286,18 +282,24 @@ theorem reach_inv {cfg : Config} {s : State} (h : Reach cfg s) : SimInv cfg s :=
 
 theorem reach_cfg {cfg : Config} {s : State} (h : Reach cfg s) : s.cfg = cfg := (reach_inv h).cfgEq
 
+namespace Alive
 /-- the full system simulates the ring system, as long as the pool has not been deleted -/
 theorem reach_ring {cfg : Config} {s : State} (h : Reach cfg s) (hl : poolAlive s) :
     RingReach (capOf cfg) (proj s) := (reach_inv h).ringOk hl
+
+end Alive
 
 /-- ... and trivially whenever there is no pool -/
 theorem reach_ring_noPool {cfg : Config} {s : State} (h : Reach cfg s) (hp : s.pool = none) :
     RingReach (capOf cfg) (proj s) := by
   rw [proj_none hp, reach_cfg h]; exact RingReach.init
 
+namespace Alive
 theorem ring_facts {cfg : Config} {s : State} {p : Pool} (h : Reach cfg s) (hl : poolAlive s)
     (_hp : s.pool = some p) : ∃ cap, 0 < cap ∧ RingReach cap (proj s) :=
   ⟨capOf cfg, capOf_pos cfg, reach_ring h hl⟩
+
+end Alive
 
 /-- ring frames occur only on top of a stack -/
 theorem ring_only_top {cfg : Config} {s : State} {t : Tid} {th : Thread} (h : Reach cfg s)
@@ -313,6 +315,7 @@ theorem finished_stack_nil {cfg : Config} {s : State} {t : Tid} {th : Thread} (h
 
 /-! ### the ring facts lifted to the full system -/
 
+namespace Alive
 section lifted
 variable {cfg : Config} {s : State} {p : Pool}
 
@@ -388,5 +391,6 @@ theorem full_tail_le_head_cap (h : Reach cfg s) (hl : poolAlive s) (hp : s.pool 
   have := ring_tail_le_head_cap (capOf_pos cfg) (reach_ring h hl); rwa [proj_ring hp] at this
 
 end lifted
+end Alive
 
 end Nstd.Future
